@@ -58,7 +58,7 @@ CHECKS = {
             "(argument, nested in every builtin container incl. dict key, return, yield, receiver, module global, global named like the function, "
             "caller local, first argument of an unresolvable function) and every k, the journal of user-defined code run by the tracer is empty; "
             "every explored path is re-executed natively. The process-wide random generator (the traced program's own random numbers) must not be "
-            "drawn from when no sample rate is configured; with a rate it is (known finding C03-sampling-draws-from-global-rng, reported as KNOWN-FINDING).",
+            "drawn from, with or without a sample rate.",
             TRUST + "The clause 'same results with and without tracing' as a two-run whole-program differential is NOT claimed; the channels through "
             "which the tracer could change a program (hooks, escaping exceptions, profiler slot, global random state) are. The engine's own "
             "probes of objects (__class__ reads by its internal isinstance checks, __ch_* lookups) are filtered from the journal by call stack; "
